@@ -279,6 +279,9 @@ func (Prop) Gen(seed int64, tier string) *harness.Case {
 		w.Stubs = append(w.Stubs, sp)
 	}
 	nOps := 5 + r.Intn(36)
+	if tier == "thorough" && r.Intn(3) == 0 {
+		nOps = 40 + r.Intn(60)
+	}
 	kinds := []string{"NewEnv", "NewModule", "Define", "Define", "DefineGlobal", "Set", "Set", "Get", "Get", "Delete", "DeleteGlobal",
 		"DefineType", "DefineGlobalType", "Type", "Type", "ValueSymbols", "TypeSymbols", "Copy", "DeepCopy", "EnvFromPath", "EnvFromPath", "Addr", "String"}
 	if nStubs > 0 {
